@@ -77,8 +77,15 @@ def make_workload(seed, i):
             for k in range(r2.randint(2, 5)):
                 pkg.files[fn].append(M.Protocol("Gone%s%d" % (r2.choice(M.WORDS).capitalize(), k), [("s0", M.Prim(r2.choice(["int32", "string", "float64"])), r2.chance(0.5))]))
             desc["removed_protocols"] = True
-        pkg = E.with_versions(pkg, rng.fork("v"), rng.randint(1, 3), partial=rng.chance(0.7), layout=rng.fork("layout").choice(["siblings", "siblings", "archive"]),
-                              order=rng.fork("order").choice(["oldest_first", "newest_first", "shuffled"]))
+        # steps whose type may change at *every* evolution step, so that one step differs from the current model in a
+        # different way in every previous version (per-version code paths of the generators)
+        protos_ = [d for d in pkg.defs() if isinstance(d, M.Protocol) and not d.name.startswith("Gone")]
+        if protos_:
+            protos_[0].steps.append(("steerw", M.Prim("int8"), False))
+            protos_[0].steps.append(("steerwv", M.Vec(M.Prim("uint8")), False))
+            protos_[0].steps.append(("steerwo", M.Opt(M.Prim("int16")), True))
+        pkg = E.with_versions(pkg, rng.fork("v"), rng.randint(1, 3), partial=True if protos_ else rng.chance(0.7), layout=rng.fork("layout").choice(["siblings", "siblings", "archive"]),
+                              order=rng.fork("order").choice(["oldest_first", "newest_first", "shuffled"]), widen_steps=("steerw", "steerwv", "steerwo"))
         if desc.get("removed_protocols"):
             for fn2 in pkg.files:
                 pkg.files[fn2] = [d for d in pkg.files[fn2] if not (isinstance(d, M.Protocol) and d.name.startswith("Gone"))]
